@@ -295,12 +295,20 @@ def run(facts, res):
         ok_ic = False
         extra = []
         for c in sel:
-            if callee_name(c) != "filter":
+            if callee_name(c) not in ("filter", "filter_map"):
                 extra.append(callee_name(c))
                 continue
             cl = _top_closure(c[2][1]) if len(c[2]) > 1 else None
             cb_ = facts.body(cl[1]) if cl is not None else None
-            ls_ = closure_result_lits(cb_, facts, True) if cb_ is not None else []
+            if callee_name(c) == "filter_map":
+                # `filter_map(|(id, t)| (t.leafs().len() > 1).then(|| id.clone()))`: selected exactly when the closure yields Some
+                from ..conds import success_result_lits
+                ls_ = success_result_lits(cb_, facts) if cb_ is not None else []
+                if not ls_:
+                    extra.append("filter_map")
+                    continue
+            else:
+                ls_ = closure_result_lits(cb_, facts, True) if cb_ is not None else []
             from ..conds import unaccepted
 
             def leaf_count(l):
@@ -351,6 +359,30 @@ def run(facts, res):
         names = [callee_name(x) for x in walk(rt, False) if x[0] == "call"]
         chain_ok = "get_leafs" in names and names.count("filter") == 1 and not (set(names) & {"take", "skip", "step_by"})
         wdef = ok
+        if not (ok and chain_ok):
+            # loop form: `for r in leafs { if w != r { out.insert(r.to_string()) } }`
+            from ..conds import unaccepted
+            from ..common import whole_iteration
+            gdu = du_of(gc)
+            for bi, t in gc.calls():
+                if t.callee is None or t.callee.name not in ("insert", "push") or len(t.args) < 2:
+                    continue
+                v = gdu.operand_term(t.args[1], 30)
+                if not (contains_call(v, "get_leafs") and whole_iteration(gc, v)):
+                    continue
+
+                def is_ne_winner(l):
+                    if not (l.kind == "call" and callee_name(l.term) in ("ne", "eq") and l.truth == (callee_name(l.term) == "ne") and len(l.term[2]) >= 2):
+                        return False
+                    if l.term[4] is None or "revision::Revision" not in ((l.term[4].self_ty or "") + " ".join(l.term[4].args or []) + (l.term[4].full or "")):
+                        return False
+                    if any(x[0] == "call" and callee_name(x) in ("digest", "index", "to_string", "tail") for a_ in l.term[2][:2] for x in walk(a_)):
+                        return False
+                    return any(contains_call(a_, "get_winner") for a_ in l.term[2][:2]) and any(contains_call(a_, "get_leafs") for a_ in l.term[2][:2])
+                ls_ = lits_of(gc, bi, facts)
+                others = unaccepted(ls_, lambda l: is_ne_winner(l) or (l.kind == "variant" and l.variants and l.variants <= {"Some", "Ok", "Continue"}))
+                if any(is_ne_winner(l) for l in ls_) and not others:
+                    ok = chain_ok = wdef = True
         res.instance("W4", "get_conflicting = get_leafs().filter(|r| winner != r): filter is `ne(winner, r)`: %s, single filter over the whole leaf set: %s, w = get_winner(): %s" % (ok, chain_ok, wdef), gc.loc())
         if not (ok and chain_ok and wdef):
             res.violation("W4", "get_conflicting|filter", "get_conflicting is no longer `leaves filtered by != winner`", gc.loc())
